@@ -76,6 +76,8 @@ type Cfg struct {
 	Slots    []Slot
 	TitleVia string // api-*: "info" (description's info.title) | "option" (WithUITitle)
 	SpecSeed int    // standalone Spec: which bytes are served
+	SpecSize int    // > 0: the spec document is padded to exactly (standalone) / about (API flavours) this many bytes
+	DocFirst bool   // standalone Spec: WithSpecDocument is applied before WithSpecPath (else after)
 }
 
 type Req struct {
@@ -123,7 +125,7 @@ func (c Cfg) JSON(specsha []int) M {
 		"specurl": M{"kind": c.SpecURL.Kind, "dirs": trace.BB(c.SpecURL.Dirs), "doc": trace.B(c.SpecURL.Doc),
 			"host": trace.B(c.SpecURL.Host), "query": trace.B(c.SpecURL.Query), "enc": c.SpecURL.Enc},
 		"oauthurl": trace.B(c.OAuthURL), "hasnext": c.HasNext, "custom": c.Custom, "ops": trace.BB(c.Ops),
-		"slots": slots, "specsha": specsha, "titlevia": c.TitleVia, "specseed": c.SpecSeed}
+		"slots": slots, "specsha": specsha, "titlevia": c.TitleVia, "specseed": c.SpecSeed, "specsize": c.SpecSize, "docfirst": c.DocFirst}
 }
 
 func strs(v any) []string {
@@ -142,6 +144,10 @@ func cfgFromJSON(v any) Cfg {
 			Query: trace.Str(su["query"]), Enc: drv.Bool(su["enc"])},
 		OAuthURL: trace.Str(m["oauthurl"]), HasNext: drv.Bool(m["hasnext"]), Custom: drv.Bool(m["custom"]), Ops: strs(m["ops"]),
 		TitleVia: drv.Str(m["titlevia"]), SpecSeed: drv.Int(m["specseed"])}
+	if v, ok := m["specsize"]; ok {
+		c.SpecSize = drv.Int(v)
+	}
+	c.DocFirst = drv.Bool(m["docfirst"])
 	for _, sv := range drv.List(m["slots"]) {
 		sm := drv.Map(sv)
 		c.Slots = append(c.Slots, Slot{Name: drv.Str(sm["name"]), Payload: trace.Str(sm["payload"])})
@@ -174,7 +180,18 @@ func (c Cfg) specBytes() []byte {
 	if isAPI(c.Kind) {
 		return c.swagger()
 	}
-	return []byte(fmt.Sprintf(`{"swagger":"2.0","info":{"title":"<b>&amp;\"'","version":"%d"},"paths":{}}`+"\n", c.SpecSeed))
+	head := fmt.Sprintf(`{"swagger":"2.0","info":{"title":"<b>&amp;\"'","version":"%d","description":"`, c.SpecSeed)
+	tail := `"},"paths":{}}` + "\n"
+	pad := ""
+	if n := c.SpecSize - len(head) - len(tail); n > 0 {
+		// not periodic with the chunk size, so a truncated or rotated answer never equals the document
+		b := make([]byte, n)
+		for i := range b {
+			b[i] = "abcdefghijklmnopqrstuvw"[(i+i/23)%23]
+		}
+		pad = string(b)
+	}
+	return []byte(head + pad + tail)
 }
 
 func (c Cfg) title() string {
@@ -193,6 +210,13 @@ func (c Cfg) swagger() []byte {
 		}}
 	}
 	info := map[string]any{"title": "plain", "version": "1"}
+	if c.SpecSize > 0 {
+		b := make([]byte, c.SpecSize)
+		for i := range b {
+			b[i] = "abcdefghijklmnopqrstuvw"[(i+i/23)%23]
+		}
+		info["description"] = string(b)
+	}
 	if c.TitleVia == "info" && c.title() != "" {
 		info["title"] = c.title()
 	}
@@ -453,8 +477,13 @@ func generate(c *drv.Ctx) {
 		for _, p := range pathsAll {
 			for _, d := range docsAll {
 				for _, hn := range []bool{false, true} {
-					n++
-					emit(Cfg{Kind: "spec", Base: b, Path: p, Doc: d, HasNext: hn, SpecURL: SpecURL{Kind: "default"}, SpecSeed: n})
+					for _, docFirst := range []bool{false, true} { // both orders of WithSpecPath / WithSpecDocument
+						n++
+						// document sizes around the 32 KiB mark and a large one rotate over the lattice (every 3rd case)
+						size := []int{0, 0, 32767, 0, 0, 32768, 0, 0, 32769, 0, 0, 100000}[n%12]
+						emit(Cfg{Kind: "spec", Base: b, Path: p, Doc: d, HasNext: hn, DocFirst: docFirst, SpecSize: size,
+							SpecURL: SpecURL{Kind: "default"}, SpecSeed: n})
+					}
 				}
 			}
 			for _, k := range uiKinds {
@@ -524,7 +553,9 @@ func generate(c *drv.Ctx) {
 		switch {
 		case k == "spec":
 			cfg.Custom = false
-			cfg.Doc = []string{"", "swagger.json", "openapi.json", "v2/doc.json"}[c.Rng.Intn(4)]
+			cfg.Doc = []string{"", "swagger.json", "openapi.json", "v2/doc.json", "a/b/doc.json"}[c.Rng.Intn(5)]
+			cfg.DocFirst = c.Rng.Intn(2) == 0
+			cfg.SpecSize = []int{0, 0, 0, 32767, 32768, 32769, 65536, 65537, 100000}[c.Rng.Intn(9)]
 		case k == "oauth2":
 			cfg.OAuthURL = []string{"", "", "/cb", "/x/y/cb"}[c.Rng.Intn(4)]
 			cfg.Slots = slotsFor(k, cfg.Custom, rp)
@@ -548,6 +579,7 @@ func generate(c *drv.Ctx) {
 			cfg.SpecURL = su
 			cfg.Ops = opsDefault
 			cfg.TitleVia = []string{"info", "option"}[c.Rng.Intn(2)]
+			cfg.SpecSize = []int{0, 0, 0, 0, 0, 33000, 70000}[c.Rng.Intn(7)]
 		default:
 			cfg.Slots = slotsFor(k, cfg.Custom, rp)
 		}
@@ -668,6 +700,12 @@ func build(cfg Cfg, nl *nextLog, orig, sent **http.Request, sentBody *string, ra
 		}
 		if cfg.Doc != "" {
 			opts = append(opts, middleware.WithSpecDocument(cfg.Doc))
+		}
+		if cfg.DocFirst {
+			// functional options: the order in which they are given must not matter
+			for i, j := 0, len(opts)-1; i < j; i, j = i+1, j-1 {
+				opts[i], opts[j] = opts[j], opts[i]
+			}
 		}
 		return middleware.Spec(cfg.Base, cfg.specBytes(), next, opts...), ""
 	case "redoc":
